@@ -1092,7 +1092,7 @@ HS_CTORS = {
     "A": (lambda: ["A"], ["A"]),
     "tuple": (lambda: ("b", "A"), ["b", "A"]),
     "gen": (lambda: (x for x in ["B", "a"]), ["B", "a"]),
-    "dup": (lambda: ["a", "A", "b"], ["a", "A", "b"]),
+    "dup": (lambda: ["a", "A", "b"], ["a", "b"]),      # a set: the first spelling of each header is kept
 }
 HS_UPD = {"ab": ["a", "b"], "BAc": ["B", "A", "c"], "empty": [], "dupin": ["c", "C"]}
 
@@ -1103,11 +1103,12 @@ class HSModel:
     a value that is already present at another position)."""
 
     def __init__(self, items, taint=None):
-        self.l = list(items)
+        self.l = []
         self.taint = taint
-        low = [x.lower() for x in self.l]
-        if len(set(low)) != len(low):
-            self.taint = "ctor_duplicates"
+        for x in items:
+            # set semantics: one spelling per header (the constructor behaves like repeated add())
+            if x.lower() not in [y.lower() for y in self.l]:
+                self.l.append(x)
 
     def key(self):
         return (tuple(self.l), self.taint)
